@@ -200,11 +200,13 @@ def user_round_tasks(oracles, budget, graphs, params=None, heavy_too=False):
 def l2_reader_race_tasks(oracles, tier, hooks=None, prefix="l2race"):
     """A user's `show-status -n` (a reader that only takes the cluster lock for a moment) started at ANY point, explored
     at sync level L2: lock files, `.bk` files and the crash marker appear and disappear between two file operations of
-    another process (e.g. between a directory listing and the stat of each entry).  2 preemptions on the one-job
-    submission (thorough: 3, and 2 on two independent jobs), sharded over the workers."""
+    another process (e.g. between a directory listing and the stat of each entry).  Quick: 2 preemptions by or of the
+    reader on the one-job submission; thorough: 2 unrestricted preemptions, 3 by or of the reader, and 2 by or of the reader
+    on two independent jobs; sharded over the workers."""
     tasks = []
-    plan = [("single", 2, 16)] if tier == "quick" else [("single", 3, 48), ("pair", 2, 32)]
-    for g, bud, nshard in plan:
+    # (graph, preemptions, shards, restricted to preemptions by or of the reader?)
+    plan = [("single", 2, 16, True)] if tier == "quick" else [("single", 2, 16, False), ("single", 3, 32, True), ("pair", 2, 32, True)]
+    for g, bud, nshard, focus in plan:
         bb = S.REP[g]
         # quick: the reader starts once a first result exists (the rounds that collect, hand over and complete);
         # thorough: at any point from the creation of the submission
@@ -214,9 +216,9 @@ def l2_reader_race_tasks(oracles, tier, hooks=None, prefix="l2race"):
         kw = dict(hooks=hooks) if hooks else {}
         sc = mk_scen(bb, dict(size=1, max_nodes=None), actors=actors, **kw)
         sc["level"] = 2
-        if tier == "quick":
+        if focus:
             sc["preempt_focus"] = ["usr"]  # only preemptions by or of the reader (the other overlaps: L0/L1 scenarios)
-        t = dict(id=f"{prefix}-{g}-showstatus-L2-b{bud}", scen=sc, oracles=["Obs"] + oracles, budget=(bud, 0),
+        t = dict(id=f"{prefix}-{g}-showstatus-L2-b{bud}{'-focus' if focus else ''}", scen=sc, oracles=["Obs"] + oracles, budget=(bud, 0),
                  cls="reader-race-L2+" + _cls(bb, dict(size=1, max_nodes=None)))
         tasks += shard([t], nshard)
     return tasks
@@ -575,7 +577,7 @@ def c05(tier):
         t["id"] += "-L1"
         tasks.append(t)
     tasks += l2_reader_race_tasks(["C05"], tier, prefix="c05")
-    bounds = f"a user's show-status started at any point at sync level L2 (every lock operation and file access a scheduling point) with 2 (thorough 3) preemptions on the one-job submission; REP graphs x max-nodes {{1,2,unset}} at {b[0]} preemption(s) with the recovery actor (try-submit-jobs and show-status -n forms, re-armed up to n_jobs+2 times; also with unrelated jobs of the same user in squeue); G(1..3) x parameter grid at budget 0; a user-run try-submit-jobs at any point; failures x cancel flags; resubmission histories on every 3-job DAG; 3 graphs at sync level L1 (results.json / marker accesses are scheduling points)"
+    bounds = f"a user's show-status started at any point at sync level L2 (every lock operation and file access a scheduling point) with 2 preemptions by or of the reader on the one-job submission (thorough: 2 unrestricted, 3 by or of the reader, 2 on two jobs); REP graphs x max-nodes {{1,2,unset}} at {b[0]} preemption(s) with the recovery actor (try-submit-jobs and show-status -n forms, re-armed up to n_jobs+2 times; also with unrelated jobs of the same user in squeue); G(1..3) x parameter grid at budget 0; a user-run try-submit-jobs at any point; failures x cancel flags; resubmission histories on every 3-job DAG; 3 graphs at sync level L1 (results.json / marker accesses are scheduling points)"
     return explore_check("C05", tier, tasks, S_RULE, COMMON_ASSUMPTIONS, dict(bounds=bounds))
 
 
@@ -1058,7 +1060,7 @@ def c16(tier):
             sc["exit_codes"] = {S.NAMES[i]: [c, 0] for i, c in enumerate(ec) if c}
             tasks.append(dict(id=f"hooks-resub-{g}-e{''.join(map(str, ec))}-f{''.join(map(str, fl))}", scen=sc, oracles=["Obs", "C16"], budget=(0, 0), cls="hooks+resubmit"))
     tasks += l2_reader_race_tasks(["C16"], tier, hooks=allhooks, prefix="c16")
-    bounds = "a user's show-status started at any point at sync level L2 with 2 (thorough 3) preemptions on the one-job submission, all four hooks set; failing setup / node setup commands (run once, nothing started behind them); a refused batch (completion with missing jobs); failing teardown hooks without a recovery actor; two submission groups; resubmissions (all / some / successful jobs); all 16 set/unset combinations of the four lifecycle commands x 4 REP graphs x {1 batch per job, one batch, 2 per batch, local}; failing teardown hooks; budget 1 on the multi-batch scenarios"
+    bounds = "a user's show-status started at any point at sync level L2 with 2 preemptions by or of the reader on the one-job submission (thorough: 2 unrestricted, 3 by or of the reader, 2 on two jobs), all four hooks set; failing setup / node setup commands (run once, nothing started behind them); a refused batch (completion with missing jobs); failing teardown hooks without a recovery actor; two submission groups; resubmissions (all / some / successful jobs); all 16 set/unset combinations of the four lifecycle commands x 4 REP graphs x {1 batch per job, one batch, 2 per batch, local}; failing teardown hooks; budget 1 on the multi-batch scenarios"
     return explore_check("C16", tier, tasks, S_RULE, COMMON_ASSUMPTIONS, dict(bounds=bounds))
 
 
